@@ -467,6 +467,10 @@ def run(index, rep, tier):
             n14 += 1
             cs = [call_name(c) for c in calls_in(f.node, nested=True)]
             other = [c for c in calls_in(f.node, nested=True) if call_name(c) == "distance_from_root"]
+            g14 = cfg_of(f)
+            every_call = g14.must_pass(g14.entry, lambda nd: any(call_name(c) == "calc_node_root_distances" for c in node_calls(nd)), skip_src=False)[0]
+            rep.check(every_call, "R17.14", f.qualname, "root distances not recomputed on every call", fn_where(f), "%s recomputes the root distances on every call" % name,
+                      "Tree.%s has a path to its result that does not call calc_node_root_distances(): the `root_distance` attributes are what an EARLIER call left on the nodes (nothing invalidates them), so after edge lengths were changed - a tip raised, scale_edges(), lengths reset from ages - the answer is that of the old tree, and a tip added since has no attribute at all (AttributeError)" % name)
             rep.check("calc_node_root_distances" in cs and not other, "R17.14", f.qualname, "depth measured by another yardstick", fn_where(f, other[0] if other else None), "%s measures through calc_node_root_distances()" % name,
                       "Tree.%s %s: Node.distance_from_root() adds the seed node's own edge length while calc_node_root_distances() - which num_lineages_at and the stored root_distance use - puts the seed at 0, so with a root edge of 0.5 the 'maximum distance from the root' is 0.5 beyond the deepest tip and num_lineages_at(max_distance_from_root()) finds no lineage there" % (name, "calls `%s`" % norm(other[0])[:50] if other else "no longer calls calc_node_root_distances()"))
         rep.floor("R17.14", "tree-level depth queries", 3, n14)
